@@ -1,9 +1,10 @@
-CONSTANTS N = 8  NOrig = 5  NLoc = 2  MaxLevel = 999  Typed = TRUE  MaxSet = 3  NBlk = 2  BlkGrid = TRUE
+CONSTANTS N = 9  NOrig = 6  NLoc = 2  MaxLevel = 999  Typed = TRUE  MaxSet = 3  NBlk = 2  BlkGrid = TRUE  NGrp = 1  Rx = FALSE  NAsm = 0  Deviant = TRUE  WithOwned = TRUE
 SPECIFICATION TSpec
 CONSTRAINT Progress
 POSTCONDITION Report
 INVARIANT TypeOK
-INVARIANT OneParentListedOnce
+INVARIANT BrokenIsDead
+INVARIANT OneParentListedOnceD
 INVARIANT NoDuplicates
 INVARIANT Acyclic
 INVARIANT DetachedIsDetached
